@@ -7,7 +7,9 @@ import shapehist as shh
 from lib import coq_list as L, coq_term_str as S, coq_nat as N
 
 THEOREMS = ['C16_embedded_eq_posthoc', 'C16_embedded_driver', 'C16_variants_equal', 'C16_calls_once_children_first',
-            'C16_example']
+            'C16_example', 'C16_conditions_are_source', 'C16_lookup_is_current_state', 'C16_embedded_is_current_state',
+            'C16_memo_lookup_refuted', 'C16_merge_embedded_eq_posthoc', 'C16_vargs_call_agree',
+            'C16_vargs_embedded_eq_posthoc', 'C16_embedded_meta_refused_inplace_refuted', 'C16_inplace_dag_refuted']
 GEN_DEPS = ['ShapeHoles']
 RULE = ('(a) random trees (depth <= 4, 0-4 children, rule names incl. `_x`, three token types, None leaves, childless '
         'trees) x generated pure transformer classes (callbacks on a random subset of rule names and token types building '
@@ -28,6 +30,16 @@ RULE = ('(a) random trees (depth <= 4, 0-4 children, rule names incl. `_x`, thre
         'followed gives the same value - over lexer in {contextual, basic}, propagate_positions on/off, the same '
         'class variants and constructor modes (incl. visit_tokens=False with terminal callbacks: F42 regression); '
         '(d) TransformerChain T1*T2 over the four classes against the composed reference; (c) python-only: the four classes on DAG-shaped inputs (shared sub-objects). '
+        'Round 12 (harness/shapehist.py): (h) transformer OBJECTS WITH A HISTORY - 16 histories (used on the very tree / text; copy.copy / '
+        'deepcopy then re-configured; setattr of a bound method of a differently configured donor object over / beside a class-level '
+        'callback; delattr; merge_transformers after use; class-level assignment after use; visit_tokens toggled after use; compositions) '
+        'x every sampled tree x four classes (value == documented value for the attributes the object has NOW == Coq models under the '
+        'symbolic transformer of that state; merge also through Shape/GenTie.merge_T) and x fixed + random grammars (embedded on the SAME '
+        'object, in both orders, == afterwards == documented); (v) v_args adapters: lark\'s _call_userfunc, apply_visit_wrapper and '
+        'inplace_transformer on recording functions for plain / inline / tree / meta / meta+inline / custom wrappers against Shape/VArgs.v; '
+        '(g) DAG-shaped inputs as heaps of objects (4 fixed sharing shapes incl. F31, random DAGs of 2-6 objects, tree-shaped controls): '
+        'iter_subtrees order, final value of Transformer_InPlace and Transformer_InPlaceRecursive against Shape/InPlaceDag.v in Coq; '
+        'Transformer / _NonRecursive / _InPlaceRecursive must give the documented value of the DAG read as a tree. '
         'non-trivial = distinct (tree, transformer) with >= 3 nodes / distinct (grammar, config, text, transformer)')
 TRUSTED_BASE = ['hand model Shape/Transform.v of visitors.py (tied by value and call log on every case); in-place variants '
                 'are modelled on a functional heap (a tree with replaced slots); object identity / DAG inputs are not '
